@@ -165,6 +165,19 @@ func c02Generate(c *mon.Ctx) {
 			}
 
 			b := mon.MkElemCase(q, gen.DrawRepr(r, q.P.IsInf()))
+			if r.Intn(5) == 0 {
+				// both operands reached through implementation operations: P natural, Q = related value of that P
+				a = mon.MkNatElemCase(gen.Fresh(r), r.Intn(8))
+				rels := gen.Related(a.P.Pt(), gen.Fresh(r).P)
+				q = rels[r.Intn(len(rels))]
+				b = mon.MkElemCase(q, gen.DrawRepr(r, q.P.IsInf()))
+
+				if r.Bool() {
+					b = mon.MkNatElemCase(gen.Fresh(r), r.Intn(8))
+					q.Tag = "unrelated"
+				}
+			}
+
 			op := []string{"add", "sub"}[r.Intn(2)]
 
 			return &c02Case{Op: op, A: a, B: &b, Alias: "distinct", Rel: q.Tag}
